@@ -263,7 +263,9 @@ def run_unit(name, tier="quick", config="A", opts=None, keep=None):
                 # functions, overflow / bounds / the repo's own assert!s): a hint that stops holding after a source
                 # change is a broken proof, not evidence against the property
                 prim_origin = _origin(pl, linemap) or ""
-                if fnr and kind in ("assertion", "invariant", "termination") and prim_origin.startswith("verif:"):
+                # (loop invariants are contracts of the loop - the inductive statement of the function's clause - and
+                # stay clause-level: seeded change C15-5, wrong only on big-endian targets, shows up as nothing else)
+                if fnr and kind in ("assertion", "termination") and prim_origin.startswith("verif:"):
                     fo["hint"] = True
                 if fnr and kind == "precondition" and (_origin(call_line, linemap) or "").startswith("verif:"):
                     fo["hint"] = True
